@@ -24,10 +24,10 @@ type holder struct {
 	Sg stringerT
 }
 
-func (h holder) Method() string            { return h.F }
-func (h *holder) PtrMethod() string        { return h.F }
-func (h holder) Arg(s string) string       { return s }
-func (h holder) Val() *pongo2.Value        { return pongo2.AsValue(h.F) }
+func (h holder) Method() string      { return h.F }
+func (h *holder) PtrMethod() string  { return h.F }
+func (h holder) Arg(s string) string { return s }
+func (h holder) Val() *pongo2.Value  { return pongo2.AsValue(h.F) }
 
 func ctxFor(m string) pongo2.Context {
 	ps := m
@@ -474,7 +474,7 @@ func init() {
 	eng.Register(&eng.Check{
 		ID:    "C02",
 		Title: "Autoescape: context strings never reach the output unescaped",
-		Rule: "bounded-exhaustive composition of data-flow routes: every taint source x every chain of carriers up to the depth bound x every print sink, in opt-out-free templates (no safe, no autoescape off, no *_html filter, no Go-marked-safe value), plus every registered filter (registry hook) on a tainted input / with a tainted argument and tags printing their arguments. Each program is rendered with the marker q<7>w&e'r\"t in every string leaf; the output must contain (case-insensitively) none of <7 7> &e e' r\", and must not contain more raw < > \" ' than the rendering of the same program with a harmless twin value. Non-trivial: the program compiles and runs; programs that fail are counted as skipped.",
+		Rule:  "bounded-exhaustive composition of data-flow routes: every taint source x every chain of carriers up to the depth bound x every print sink, in opt-out-free templates (no safe, no autoescape off, no *_html filter, no Go-marked-safe value), plus every registered filter (registry hook) on a tainted input / with a tainted argument and tags printing their arguments. Each program is rendered with the marker q<7>w&e'r\"t in every string leaf; the output must contain (case-insensitively) none of <7 7> &e e' r\", and must not contain more raw < > \" ' than the rendering of the same program with a harmless twin value. Non-trivial: the program compiles and runs; programs that fail are counted as skipped.",
 		Assumptions: []string{
 			"filter parameters accept only names/literals: a complex tainted expression as parameter is replaced by the plain tainted name",
 			"transformations that hide the marker without emitting raw special characters (e.g. urlencode) are fine by the property",
